@@ -84,6 +84,16 @@ def run(ctx):
     icases, _, _, _ = tc.run_family(ctx, "C06_", ipick, label="c06-invalid-authenticated", timeout_ms=5000, par=16)
     tc.mech_pass(ctx, icases, ipick, label="c06-invalid-authenticated")
     ctx.cov["distinct_nontrivial"] += len(ipick)
+    # 2d. the target replies and finishes FIRST (the proxy legitimately passes its FIN on to the client); only then does the
+    #     client send a chunk that fails authentication, and keeps the connection open: still drained, not closed
+    ab = [b for b in tc.gen(ctx, "Gen_TcpConn_C06BadAfterTFin.cfg", 2000 if q else 10000, seed=ctx.seed + 3) if tc.features(b)["bad"]]
+    apick = tc.select(ab, 24 if q else 200, lambda f: (f["junk"], min(f["crecv"], 1), min(f["trecv"], 1)), rng)
+    if len(apick) < 10:
+        raise vlib.Inconclusive("steered generation produced too few bad-after-target-FIN behaviours (%d)" % len(apick))
+    acases, _, _, _ = tc.run_family(ctx, "C06_", apick, label="c06-invalid-after-target-finished", timeout_ms=5000, par=16)
+    tc.mech_pass(ctx, acases, apick, label="c06-invalid-after-target-finished")
+    ctx.cov["distinct_nontrivial"] += len(apick)
+    ipick = ipick + apick
     ctx.cov["self_test_rejected"] = tc.self_test(ctx, cases, tc.REAL_SLACK)
 
     # 3. virtual time
